@@ -505,7 +505,10 @@ def gen_c13_batch(seed, index, tier):
                 val = sep.join(names) + r.choice(['', '', ','])
                 if val.startswith('-') or not val.strip():
                     val = 'value'
-                extra['preserve'].append([r.choice(['--preserve-locals', '--preserve-globals']), val])
+                opt = r.choice(['--preserve-locals', '--preserve-globals'])
+                extra['preserve'].append([opt, val])
+                if opt == '--preserve-globals' and '--rename-globals' not in extra['flags'] and r.random() < 0.7:
+                    extra['flags'].append('--rename-globals')      # otherwise the list cannot matter
         tree, cmd = single_input_world(content, io, extra, name=r.choice(['m.py', 'm.pyw', 'module.txt', 'm']))
         if fl and r.random() < 0.1:
             cmd['repeat_flags'] = [r.choice(fl)]
